@@ -497,7 +497,8 @@ var _ = types.Typ
 //        switches from the integer sum to the float sum - then either the float sum is kept up to date in integer
 //        mode as well (on every way out of kind (i) the float sum returned is computed from the count and the float sum
 //        received), or the float sum returned here is computed from the integer sum received, or the fold's caller
-//        combines both sums in the value it returns.
+//        combines both sums in the value it returns; and where the flag received can have been true already, the float
+//        sum returned is computed from the float sum received (the integer sum is stale in float mode).
 // Otherwise the counts parsed before the switch are lost from the result. Dependence is data flow within the step
 // (operands, phis); the roles are found by shape (the parameter that an early way out hands back in each position).
 func (c *Ctx) ruleSumAll(rule string) {
@@ -559,6 +560,7 @@ func (c *Ctx) ruleSumAll(rule string) {
 type sumAllWay struct {
 	r                         core.Ret
 	mayInt, mayFloat, wasInt  bool
+	wasFloat                  bool // the flag received can have been true (the float sum was the result already)
 	intOK, floatOK, floatSeed bool
 	floatCount, floatPrev     bool
 }
@@ -817,10 +819,13 @@ func (c *Ctx) sumAllWays(rule string, step *ssa.Function) (sumAllPart, bool) {
 		if !after {
 			continue
 		}
-		w := sumAllWay{r: r, mayInt: true, mayFloat: true, wasInt: true}
+		w := sumAllWay{r: r, mayInt: true, mayFloat: true, wasInt: true, wasFloat: true}
 		for _, cond := range r.Conds() {
 			if cond.V == ssa.Value(role[flagIdx]) && cond.True {
 				w.wasInt = false
+			}
+			if cond.V == ssa.Value(role[flagIdx]) && !cond.True {
+				w.wasFloat = false
 			}
 		}
 		flag := r.Val(flagIdx)
@@ -862,6 +867,9 @@ func (c *Ctx) sumAllDecide(rule string, part sumAllPart, tracked bool) {
 		case w.mayFloat && !(w.floatCount && (w.floatPrev || w.floatSeed)):
 			c.R.Bad(rule, k, pos, "a count is left out of the float sum",
 				"the way out can return with the flag true (the float sum is the result), but the float sum it returns is not computed from both the parsed count and a sum received: the parser returns a wrong number")
+		case w.mayFloat && w.wasFloat && !w.floatPrev && !combines:
+			c.R.Bad(rule, k, pos, "the float sum received is dropped",
+				"the way out can be taken when the float sum is the result already (the flag received can be true: an earlier count did not fit in 64 bits), but the float sum it returns is not computed from the float sum received - the integer sum it may be computed from is stale by then: ParseFloat returns only the counts from this one on")
 		case w.mayFloat && w.wasInt && !tracked && !w.floatSeed && !combines:
 			c.R.Bad(rule, k, pos, "the switch to the float sum drops the counts summed so far",
 				"the way out can switch from the integer sum to the float sum; the float sum is not kept up to date in integer mode (another way out returns it without the parsed count), and here it is not computed from the integer sum received, nor does the caller combine the two sums: ParseFloat returns only the counts from this one on")
@@ -1852,5 +1860,323 @@ func (c *Ctx) ruleFreeFirst(rule string) {
 		c.R.Ok(rule, k, "-", "check-then-insert on a table of the session", "no method of the session both looks a key up in a map field and inserts into it: no table decides whether a work start is taken, and the removal of entries has no bearing on it")
 	} else {
 		c.R.Ok(rule, k, "-", "check-then-insert on a table of the session", sprintf("%s: %d removals examined", strings.Join(names, ", "), n))
+	}
+}
+
+// ---------- R-SENDCTX (C07): a write to the client is not given up on the session's context ----------
+//
+// The context the server session was given is cancelled when the plugin is told to stop (SIGTERM): the steps that are
+// running are then expected to finish, and each of them still gets its terminal message while the output is open
+// (dc688bc). The function that writes a message (it starts a goroutine that calls Encode on the session's encoder and
+// waits for it in a select) may give the wait up after a time of its own, but not on the session's context: once that
+// is cancelled every wait would end at once, the write would count as failed, and no later report would go out. For
+// every receive arm of a select in a method of the session that starts such an encoding goroutine: the channel is not
+// the Done() channel of the session's context field or of a context derived from it (WithTimeout, WithCancel,
+// WithDeadline, WithValue).
+func (c *Ctx) ruleSendCtx(rule string) {
+	ro := c.roles()
+	if !ro.ok || ro.serverT == nil {
+		return
+	}
+	encodes := func(fn *ssa.Function) bool {
+		for f := range c.M.Reachable([]*ssa.Function{fn}, nil) {
+			for _, b := range f.Blocks {
+				for _, in := range b.Instrs {
+					if call, ok := in.(*ssa.Call); ok && strings.HasSuffix(core.StaticCalleeName(&call.Call), "cbor/v2.Encoder).Encode") {
+						return true
+					}
+				}
+			}
+		}
+		return false
+	}
+	var fromSession func(v ssa.Value, depth int) bool
+	fromSession = func(v ssa.Value, depth int) bool {
+		if v == nil || depth > 6 {
+			return false
+		}
+		switch x := v.(type) {
+		case *ssa.UnOp:
+			if fa, ok := x.X.(*ssa.FieldAddr); ok && x.Op == token.MUL {
+				if sn := structOf(fa.X.Type()); sn != nil && sn.Obj() == ro.serverT.Obj() && isNamed(x.Type(), "context", "Context") {
+					return true
+				}
+			}
+			if al, ok := x.X.(*ssa.Alloc); ok && al.Referrers() != nil {
+				for _, r := range *al.Referrers() {
+					if st, ok := r.(*ssa.Store); ok && st.Addr == ssa.Value(al) && fromSession(st.Val, depth+1) {
+						return true
+					}
+				}
+			}
+		case *ssa.Extract:
+			return fromSession(x.Tuple, depth+1)
+		case *ssa.Call:
+			switch core.StaticCalleeName(&x.Call) {
+			case "context.WithTimeout", "context.WithCancel", "context.WithDeadline", "context.WithValue", "context.WithCancelCause", "context.WithTimeoutCause", "context.WithDeadlineCause", "context.WithoutCancel":
+				return len(x.Call.Args) > 0 && fromSession(x.Call.Args[0], depth+1)
+			}
+		case *ssa.Phi:
+			for _, e := range x.Edges {
+				if fromSession(e, depth+1) {
+					return true
+				}
+			}
+		case *ssa.MakeInterface:
+			return fromSession(x.X, depth+1)
+		case *ssa.ChangeInterface:
+			return fromSession(x.X, depth+1)
+		}
+		return false
+	}
+	sessionDone := func(ch ssa.Value) bool {
+		call, ok := ch.(*ssa.Call)
+		if !ok || !call.Call.IsInvoke() || call.Call.Method.Name() != "Done" {
+			return false
+		}
+		return fromSession(call.Call.Value, 0)
+	}
+	n := 0
+	for _, fn := range c.M.SortedFuncs(c.scopePkg("atp")) {
+		if !c.methodOrClosureOf(fn, ro.serverT) {
+			continue
+		}
+		starts := false
+		for _, b := range fn.Blocks {
+			for _, in := range b.Instrs {
+				if g, ok := in.(*ssa.Go); ok {
+					for _, tgt := range c.M.Callees(g.Common()) {
+						if encodes(tgt) {
+							starts = true
+						}
+					}
+				}
+				// the goroutine may be started by a helper that hands its channel back
+				if call, ok := in.(*ssa.Call); ok {
+					if h := core.StaticBody(&call.Call); h != nil && h != fn && c.methodOrClosureOf(h, ro.serverT) {
+						for _, hb := range h.Blocks {
+							for _, hin := range hb.Instrs {
+								if g, ok := hin.(*ssa.Go); ok {
+									for _, tgt := range c.M.Callees(g.Common()) {
+										if encodes(tgt) {
+											if _, isChan := call.Type().Underlying().(*types.Chan); isChan {
+												starts = true
+											}
+										}
+									}
+								}
+							}
+						}
+					}
+				}
+			}
+		}
+		if !starts {
+			continue
+		}
+		idx := 0
+		for _, b := range fn.Blocks {
+			for _, in := range b.Instrs {
+				sel, ok := in.(*ssa.Select)
+				if !ok {
+					continue
+				}
+				for _, st := range sel.States {
+					if st.Dir != types.RecvOnly {
+						continue
+					}
+					idx++
+					n++
+					k := key(rule, c.M.Key(fn), sprintf("wait #%d for the write does not end on the session's context", idx))
+					if sessionDone(st.Chan) {
+						c.R.Bad(rule, k, c.M.InstrPos(sel), "the wait for a write to the client ends when the session's context is cancelled",
+							"after the cancellation (the plugin was told to stop) every write is given up at once and counts as failed: the steps that are still running get no terminal message although the output is open")
+					} else {
+						c.R.Ok(rule, k, c.M.InstrPos(sel), "arm of the wait for a write to the client", "not the Done() channel of the session's context or of a context derived from it")
+					}
+				}
+			}
+		}
+	}
+	if n == 0 {
+		c.R.Unresolved(rule, "the select in which a method of the server session waits for the goroutine that encodes a message")
+	}
+}
+
+// ---------- R-MEMOGROWS (C15): what one comparison has compared stays compared ----------
+//
+// The compatibility check carries, through its whole recursion, the set of pairs of objects it has entered; a pair met
+// again is not compared again. That is what ends the comparison of recursive schemas - and what keeps the comparison of
+// a schema that shares objects between many places from comparing them once per path that leads to them (2^n paths
+// for n layers: the comparison of a layered schema with itself would not come back). The second half needs the pairs to
+// stay in the set after their comparison has returned: in package schema nothing is ever deleted from a map that is
+// handed down the compatibility check as a parameter (a map keyed by a pair of objects), and no such map is replaced by
+// a fresh one on the way down.
+func (c *Ctx) ruleMemoGrows(rule string) {
+	isMemo := func(t types.Type) bool {
+		mt, ok := t.Underlying().(*types.Map)
+		if !ok {
+			return false
+		}
+		arr, ok := mt.Key().Underlying().(*types.Array)
+		if !ok || arr.Len() != 2 {
+			return false
+		}
+		_, isPtr := arr.Elem().Underlying().(*types.Pointer)
+		return isPtr
+	}
+	n := 0
+	for _, fn := range c.M.SortedFuncs(c.scopePkg("schema")) {
+		var memo *ssa.Parameter
+		for _, p := range fn.Params {
+			if isMemo(p.Type()) {
+				memo = p
+			}
+		}
+		if memo == nil {
+			continue
+		}
+		n++
+		k := key(rule, c.M.Key(fn), "the set of compared pairs only grows")
+		bad := ""
+		var scan func(f *ssa.Function)
+		scan = func(f *ssa.Function) {
+			for _, b := range f.Blocks {
+				for _, in := range b.Instrs {
+					ci, ok := in.(ssa.CallInstruction)
+					if !ok {
+						continue
+					}
+					if bi, isBuiltin := ci.Common().Value.(*ssa.Builtin); isBuiltin && (bi.Name() == "delete" || bi.Name() == "clear") && len(ci.Common().Args) > 0 && isMemo(ci.Common().Args[0].Type()) {
+						bad = c.M.InstrPos(in)
+					}
+				}
+			}
+			for _, anon := range f.AnonFuncs {
+				scan(anon)
+			}
+		}
+		scan(fn)
+		// handed on as it is: every call of the package that takes such a map gets this parameter, not a fresh map
+		fresh := ""
+		for _, b := range fn.Blocks {
+			for _, in := range b.Instrs {
+				call, ok := in.(*ssa.Call)
+				if !ok {
+					continue
+				}
+				for _, a := range call.Call.Args {
+					if isMemo(a.Type()) && a != ssa.Value(memo) {
+						if _, isMake := a.(*ssa.MakeMap); isMake {
+							fresh = c.M.InstrPos(call)
+						}
+					}
+				}
+			}
+		}
+		switch {
+		case bad != "":
+			c.R.Bad(rule, k, bad, "a pair is taken out of the set of compared pairs",
+				"a pair that is removed when its comparison returns is compared again on every other path that leads to it: objects shared between many places are compared once per path, and the comparison of a layered schema with itself (or with a twin) does not come back")
+		case fresh != "":
+			c.R.Bad(rule, k, fresh, "the comparison goes on with a fresh set of compared pairs",
+				"below this call nothing is known of the pairs entered above: a recursive schema is compared without end, shared objects once per path")
+		default:
+			c.R.Ok(rule, k, c.M.Pos(fn.Pos()), "part of the compatibility check that carries the set of compared pairs", "nothing is deleted from the set, and every callee that takes one gets this one")
+		}
+	}
+	if n == 0 {
+		c.R.Unresolved(rule, "functions of package schema that carry a set of compared pairs (a parameter of a map type keyed by a pair of pointers)")
+	}
+}
+
+// ---------- R-F32TEXT (C02): a float32 is turned into text as a float32 ----------
+//
+// The lenient conversion of a number into a string writes the shortest text that reads back as the same number. For
+// a float32 that is the shortest text for 32 bits ("0.1"); widened to float64 first, the same value prints as
+// "0.10000000149011612", and it is that text that the length bounds, the pattern and the enum are checked against. In
+// package schema a float32 that is widened to float64 reaches strconv.FormatFloat only with the bit size 32: directly, or
+// through a parameter of a function of the package that the widened value is handed to.
+func (c *Ctx) ruleF32Text(rule string) {
+	n := 0
+	isF := func(t types.Type, kind types.BasicKind) bool {
+		bt, ok := t.Underlying().(*types.Basic)
+		return ok && bt.Kind() == kind
+	}
+	// reaches: the value (a widened float32) flows to the first argument of FormatFloat; returns the bit sizes it is
+	// formatted with ("" if it never is)
+	var reach func(v ssa.Value, seen map[ssa.Value]bool, depth int) []string
+	reach = func(v ssa.Value, seen map[ssa.Value]bool, depth int) []string {
+		if v == nil || seen[v] || depth > 3 || v.Referrers() == nil {
+			return nil
+		}
+		seen[v] = true
+		var out []string
+		for _, r := range *v.Referrers() {
+			switch x := r.(type) {
+			case *ssa.Call:
+				if core.StaticCalleeName(&x.Call) == "strconv.FormatFloat" && len(x.Call.Args) == 4 && x.Call.Args[0] == v {
+					if bits, ok := core.ConstInt(x.Call.Args[3]); ok {
+						out = append(out, sprintf("%d at %s", bits, c.M.InstrPos(x)))
+					} else {
+						out = append(out, "a computed size at "+c.M.InstrPos(x))
+					}
+					continue
+				}
+				if callee := core.StaticBody(&x.Call); callee != nil && callee.Pkg != nil && c.M.IsRepoPkg(callee.Pkg.Pkg) {
+					for i, a := range x.Call.Args {
+						if a == v && i < len(callee.Params) {
+							out = append(out, reach(callee.Params[i], seen, depth+1)...)
+						}
+					}
+				}
+			case *ssa.MakeInterface:
+				out = append(out, reach(x, seen, depth)...)
+			case *ssa.TypeAssert:
+				if isF(x.AssertedType, types.Float64) || x.CommaOk {
+					out = append(out, reach(x, seen, depth)...)
+				}
+			case *ssa.Extract:
+				out = append(out, reach(x, seen, depth)...)
+			case *ssa.Phi:
+				out = append(out, reach(x, seen, depth)...)
+			case *ssa.ChangeInterface:
+				out = append(out, reach(x, seen, depth)...)
+			}
+		}
+		return out
+	}
+	for _, fn := range c.M.SortedFuncs(c.scopePkg("schema")) {
+		idx := 0
+		for _, b := range fn.Blocks {
+			for _, in := range b.Instrs {
+				cv, ok := in.(*ssa.Convert)
+				if !ok || !isF(cv.X.Type(), types.Float32) || !isF(cv.Type(), types.Float64) {
+					continue
+				}
+				sizes := reach(cv, map[ssa.Value]bool{}, 0)
+				if len(sizes) == 0 {
+					continue // widened for arithmetic or comparison: the value is the same
+				}
+				idx++
+				n++
+				k := key(rule, c.M.Key(fn), sprintf("float32 widened for formatting #%d is formatted with the bit size 32", idx))
+				bad := ""
+				for _, sz := range sizes {
+					if !strings.HasPrefix(sz, "32 ") {
+						bad = sz
+					}
+				}
+				if bad == "" {
+					c.R.Ok(rule, k, c.M.InstrPos(cv), "text of a float32", "every FormatFloat the widened value reaches is given the bit size 32")
+				} else {
+					c.R.Bad(rule, k, c.M.InstrPos(cv), "a float32 is turned into text as a float64",
+						"the widened value reaches strconv.FormatFloat with the bit size "+bad+": float32(0.1) becomes \"0.10000000149011612\", and that text is what the length bounds, the pattern and the enum see")
+				}
+			}
+		}
+	}
+	if n == 0 {
+		c.R.Unresolved(rule, "a float32 that is widened to float64 and formatted in package schema")
 	}
 }
